@@ -20,8 +20,9 @@ PLAN = {
 }
 
 DEPS = {
-    "C01": ["theories/Proofs/CommThms.vo"], "C02": ["theories/Proofs/CommThms.vo"],
-    "C03": ["theories/Proofs/CommThms.vo"], "C04": ["theories/Proofs/CommThms.vo", "theories/Proofs/CommTime.vo"],
+    "C01": ["theories/Proofs/CommThms.vo", "theories/Proofs/WinCommProofs.vo"], "C02": ["theories/Proofs/CommThms.vo", "theories/Proofs/WinCommProofs.vo"],
+    "C03": ["theories/Proofs/CommThms.vo", "theories/Proofs/WinCommProofs.vo"],
+    "C04": ["theories/Proofs/CommThms.vo", "theories/Proofs/CommTime.vo", "theories/Proofs/WinCommProofs.vo"],
     "C09": ["theories/Proofs/PopenProofs.vo", "theories/Proofs/StatusProofs.vo"],
     "C10": ["theories/Proofs/PopenProofs.vo"], "C11": ["theories/Proofs/PopenProofs.vo"],
 }
@@ -150,6 +151,10 @@ def run(chk, tier, pid, explicit=None):
         chk.tie_broken("%s  (%d of %d scenarios diverge; first scenario %s)\n%s" % (d0, len(stats["div"]), stats["n"], s0["id"], s0["text"]))
     chk.cov["evaluations"] = stats["n"]
     chk.cov["traces_validated_against_impl"] = stats["n"] - len(stats["div"])
+    if pid in ("C01", "C02", "C03", "C04") and explicit is None:
+        # the cfg(windows) thread-based communicator, same properties, its own model (Lib/WinComm.v)
+        import wincomm
+        wincomm.run_part(chk, pid, tier)
     nontrivial = set()
     for s, f in stats["facts"]:
         if s["kind"] == "comm":
@@ -177,5 +182,12 @@ def _count(it):
 
 
 def replay(chk, path, pid):
+    lines = [l.rstrip("\n") for l in open(path, encoding="utf-8") if not l.startswith("#")]
+    if lines and lines[0].strip() == "wincomm":
+        import wincomm
+        chk.obligations(C.props_check(pid, DEPS[pid]))
+        C.build_harness()
+        wincomm.replay(chk, "\n".join(lines[1:]), pid)
+        return
     scns = load_scn_file(path)
     run(chk, "quick", pid, explicit=scns)
